@@ -17,8 +17,10 @@
 (*                   precedence/associativity in an implementation changes  *)
 (*                   the value it computes from the text.                   *)
 (*   Parse(toks)   = the C grammar as a recursive-descent recogniser        *)
-(*                   (one operator per grammar level); Check_Arith.tla      *)
-(*                   checks Parse(Toks(e)) = e on the enumerated trees.     *)
+(*                   (one operator per grammar level); Gen_Arith!Line       *)
+(*                   checks Parse(Toks(e)) = e on every enumerated tree     *)
+(*                   and family 10 uses it to judge all short token         *)
+(*                   sequences.                                             *)
 (*                                                                         *)
 (* Numbers are Int64.tla numbers (exact; the 64-bit range is checked after  *)
 (* every operation: out of range = the error "Overflow", never a wrapped   *)
@@ -320,12 +322,16 @@ DeviationApplies(env) ==
 
 \* Is an observed outcome allowed?  obs = [t, v, c, env] with t = "v" (value and
 \* final environment), "e" (evaluation error), "s" (syntax error), "p" (crash).
+\* Which kind of error is reported is not part of the property where C makes the
+\* construct a constraint violation (diagnosed at translation time): assigning
+\* to a non-lvalue may be rejected by the parser, an unrepresentable constant
+\* may be reported by the evaluator.
 Admits(S, obs) ==
   /\ obs.t # "p"
   /\ \/ \E o \in S : o.t = "u"
      \/ obs.t = "v" /\ \E o \in S : o.t = "v" /\ o.v = obs.v /\ o.env = obs.env
-     \/ obs.t = "e" /\ \E o \in S : o.t = "e"
-     \/ obs.t = "s" /\ \E o \in S : o.t = "s"
+     \/ obs.t = "e" /\ \E o \in S : o.t \in {"e", "s"}
+     \/ obs.t = "s" /\ \E o \in S : o.t = "s" \/ (o.t = "e" /\ o.c = "NotAssignable")
 
 -----------------------------------------------------------------------------
 \* Unparsing with minimal parentheses (C 6.5.1 - 6.5.16, one level per rule)
@@ -386,8 +392,8 @@ JoinFrom(ts, i, mode) ==
 Text(e, mode) == JoinFrom(Toks(e), 1, mode)
 
 -----------------------------------------------------------------------------
-\* The C expression grammar as a parser of token sequences (used only to check
-\* Toks: Check_Arith.tla).  Operands are tokens that are not operators or
+\* The C expression grammar as a parser of token sequences (used to check Toks
+\* and by family 10 of Gen_Arith.tla).  Operands are tokens that are not operators or
 \* parentheses; a parsed operand token t becomes [k |-> "t", t |-> t].
 \* Each function returns [ok, e, i] (i = next position).
 
